@@ -176,10 +176,17 @@ struct Packet {
   int         ev_accept = -1;
   int64_t     t_read = -1;   // virtual time at which the library read it from the socket
   int         ev_read = -1;
+  long        seq_read = -1; // global order stamp (shared with transmissions and completions)
   int         rcode = 0;
   bool        tc = false, has_soa = false;
   uint16_t    qclass = 1;
   bool        rd = true, cd = false;
+  struct RRInfo {
+    int      type, cls, idx; // idx: position among the marker-carrying RRs of this packet
+    uint32_t ttl;
+  };
+  std::vector<RRInfo> rrs; // answer RRs that carry address/name data, in answer order
+  std::string         cname_target;
   std::string qname_lc; int qtype = 0;
 };
 
@@ -194,6 +201,10 @@ struct Transmission {
   int         ev_index = -1;   // index of the event during which it was sent (-1: closure)
   bool        in_timer = false; // sent while the application was processing a timer expiry
   bool        in_closure = false;
+  int         src_variant = 0;     // local address variant of the socket it was sent from
+  long        seq = 0;
+  int         ref_fail[8] = { 0 }; // reference health table (from the public server-state callbacks) at send time
+  int64_t     last_fail_us[8] = { 0 };
 };
 
 struct VSock {
@@ -211,6 +222,7 @@ struct VSock {
   int                ntx = 0, nclose = 0;
   int                created_seq = 0;
   int64_t            out_blocked = 0;
+  int                local_variant = 0; // local address the socket was bound to at connect() time
   std::vector<std::pair<size_t, int>> tcp_pkts; // (end offset in instream, packet serial) // FS_SEND_WOULDBLOCK happened and nothing was written since
 };
 
@@ -219,11 +231,18 @@ struct Token {
   std::string result;      // canonical dump of what was delivered
   std::vector<int> markers; // packet serials the delivered data came from
   int              neg_marker = 0; // SOA serial of a delivered negative answer (packet serial)
+  struct Addr {
+    int fam, serial, idx, ttl, port;
+    std::string raw;
+  };
+  std::vector<Addr>        addrs;  // addresses delivered (getaddrinfo / hostent), in result order
+  std::vector<std::string> names;  // names delivered (canonical name, aliases, PTR targets)
   std::vector<uint32_t> ttls;
   bool        issued_in_cb = false, completed_sync = false;
   bool        accepted = false; // the entry point that issued it has returned
   int64_t     t_issue = 0, t_done = 0;
   int         ev_issue = -1, ev_done = -1;
+  long        seq_issue = 0, seq_done = -1;
   int         tx_at_issue = 0, tx_at_done = 0; // transmission counter snapshots
   bool        done_during_destroy = false;
   int         cbmode = 0, cbarg = 0;
@@ -266,8 +285,11 @@ struct World {
   bool        pending_write_notified = false;
   int         deviations = 0, nreq = 0, nforge = 0;
   std::vector<std::pair<std::string, int>> server_state; // (server string, success)
+  int         ref_fail[8] = { 0 };
+  int64_t     ref_last_fail_us[8] = { 0 };
   std::vector<std::string> sockstate_log;
   int         cur_ev = -1;
+  long        seq = 0; // global order stamp
   bool        in_timer = false, in_closure = false;
   std::vector<int> flush_evs; // event indexes of reinit / server membership changes (the cache must be empty after each)
   bool        nested_cb = false;
